@@ -26,7 +26,8 @@ CoreOps == {
   O("fslice", <<1, None>>), O("fslice", <<None, -1>>),
   O("ufunc", <<>>), O("iufunc", <<>>), O("map_blocks", <<0>>), O("map_blocks", <<2>>), O("map_blocks_col", <<>>), O("to_intensity", <<>>),
   O("stokes_item", <<0>>), O("stokes_item", <<3>>), O("to_stokes", <<>>), O("to_circular", <<>>),
-  O("time_shift", <<0, 4>>), O("time_shift", <<1, -6>>), O("time_shift", <<0, 1>>),
+  O("time_shift", <<0, 4>>), O("time_shift", <<1, -6>>), O("time_shift", <<0, 1>>), O("time_shift", <<0, -8>>),
+  O("time_shift", <<1, 8>>),
   O("time_shift", <<1, 5, -4>>), O("time_shift", <<0, 2, 0, -3>>),
   O("freq_shift", <<3>>), O("freq_shift", <<-4>>), O("freq_shift", <<3, -4>>), O("freq_shift", <<2, -3, 5>>),
   O("coh_dd", <<3, -2>>), O("coh_dd", <<0, 5>>),
@@ -38,7 +39,7 @@ CoreOps == {
   O("to_dask", <<>>)}
 
 \* quick: every shape up to 3 x 2 x 2 and 4 x 1 x 1, all grids, depth 2
-Q_Roots == RootsOf({<<2, 2, 2>>, <<3, 2, 1>>, <<4, 1, 1>>}, 4) \cup ReaderRoots({<<4, 2, 1>>}, 4) \cup ReadsRoots({<<4, 2, 1>>}, 4)
+Q_Roots == RootsOf({<<2, 2, 2>>, <<3, 2, 1>>, <<4, 1, 1>>}, 4) \cup ReaderRoots({<<4, 2, 1>>, <<0, 2, 1>>, <<1, 2, 1>>}, 4) \cup ReadsRoots({<<4, 2, 1>>}, 4)
 \* quick, all schedules: depth 1
 QS_Roots == RootsOf({<<2, 2, 2>>, <<4, 2, 1>>}, 4) \cup ReadsRoots({<<4, 2, 1>>, <<3, 1, 1>>}, 4)
 \* pipelines with runs in the middle (persist -> operation -> compute ...)
@@ -71,8 +72,8 @@ G_Ops == {
   O("splitcat", <<1, 2>>), O("splitcat", <<2, 1>>), O("fft_axis", <<1>>), O("fft_axis", <<2>>),
   O("stft", <<2>>), O("istft", <<2>>), O("rechunk", <<0>>), O("rechunk", <<1>>), O("rechunk", <<2>>),
   O("to_dask", <<>>)}
-G1_Roots == RootsOf(ShapesUpTo(4, 3, 2), 8) \cup ReaderRoots({<<4, 2, 1>>, <<3, 1, 2>>, <<4, 3, 1>>, <<2, 2, 2>>}, 8) \cup ReadsRoots({<<4, 2, 1>>, <<3, 1, 2>>, <<4, 3, 1>>}, 8)
-G1Q_Roots == RootsOf(ShapesUpTo(3, 2, 2) \cup {<<4, 3, 1>>, <<4, 1, 2>>}, 6) \cup ReaderRoots({<<4, 2, 1>>, <<3, 1, 2>>}, 6) \cup ReadsRoots({<<4, 2, 1>>, <<3, 1, 2>>}, 6)
+G1_Roots == RootsOf(ShapesUpTo(4, 3, 2), 8) \cup ReaderRoots({<<4, 2, 1>>, <<3, 1, 2>>, <<4, 3, 1>>, <<2, 2, 2>>, <<0, 2, 1>>, <<0, 1, 2>>, <<1, 2, 1>>}, 8) \cup ReadsRoots({<<4, 2, 1>>, <<3, 1, 2>>, <<4, 3, 1>>}, 8)
+G1Q_Roots == RootsOf(ShapesUpTo(3, 2, 2) \cup {<<4, 3, 1>>, <<4, 1, 2>>}, 6) \cup ReaderRoots({<<4, 2, 1>>, <<3, 1, 2>>, <<0, 2, 1>>, <<0, 1, 2>>, <<1, 2, 1>>}, 6) \cup ReadsRoots({<<4, 2, 1>>, <<3, 1, 2>>}, 6)
 G2_Roots == RootsOf({<<2, 2, 2>>, <<4, 2, 1>>, <<3, 3, 1>>, <<4, 1, 2>>}, 4)
 G2Q_Roots == RootsOf({<<2, 2, 2>>, <<4, 2, 1>>}, 2) \cup ReaderRoots({<<4, 2, 1>>}, 2)
 \* negative instances: per-block reads; in-place FFT tasks on blocks the graph holds
@@ -90,6 +91,7 @@ GR_Ops == {O("ufunc", <<>>), O("iufunc", <<>>), O("fft_axis", <<1>>), O("time_sh
 \* negative instances, round 3
 N_KwOps == {O("map_blocks", <<0>>), O("map_blocks", <<2>>)}
 N_VecOps == {O("freq_shift", <<3, -4>>)}
+N_RollOps == {O("time_shift", <<0, 4>>), O("time_shift", <<0, -8>>)}
 N_ReadsRoots == ReadsRoots({<<4, 2, 1>>}, 2)
 None_ == {}
 =============================================================================
